@@ -38,6 +38,8 @@ pub struct C15 {
     pub scribble: bool,
     /// once the caller lane is exhausted, drop-and-reissue on every further Pending (instead of polling on)
     pub late_cancel: bool,
+    /// replay the source lane this many more times before the benign default takes over
+    pub src_repeat: u32,
     pub src: Vec<Step>,
     pub caller: Vec<Decide>,
 }
@@ -116,9 +118,10 @@ impl<'s> FamVisitor for Runner<'s> {
         // ---- world
         let n = payloads.len() as u64;
         // implementation-agnostic: even a reader that asked for one byte per poll would stay below this
-        let budget = s.src.len() as u64 + s.caller.len() as u64 + 8 * (n + 1) + 64 + 2 * cut_at as u64;
+        let budget = s.src.len() as u64 * (1 + s.src_repeat as u64) + s.caller.len() as u64 + 8 * (n + 1) + 64 + 2 * cut_at as u64;
         let core = SrcCore::new(stream, s.src.clone(), layout, budget, self.obs.clone());
         core.borrow_mut().scribble = s.scribble;
+        core.borrow_mut().repeat_left = s.src_repeat;
         let mut reader = AsyncReader::with_buffer(SimAsyncSource(core.clone()), garbage(s.init_buf as usize));
         if s.init_buf > 0 {
             self.obs.borrow_mut().fault(fk::garbage_buffer);
@@ -389,6 +392,7 @@ impl Scenario for C15 {
             .set("touch", self.touch)
             .set("scribble", self.scribble)
             .set("late_cancel", self.late_cancel)
+            .set("src_repeat", self.src_repeat)
             .set("src", lane_to_json(&self.src))
             .set("caller", decides_to_json(&self.caller))
     }
@@ -406,6 +410,7 @@ impl Scenario for C15 {
             touch: j.get("touch").and_then(|c| c.as_bool()).unwrap_or(false),
             scribble: j.get("scribble").and_then(|c| c.as_bool()).unwrap_or(false),
             late_cancel: j.get("late_cancel").and_then(|c| c.as_bool()).unwrap_or(false),
+            src_repeat: j.get("src_repeat").and_then(|c| c.as_u64()).unwrap_or(0) as u32,
             src: lane_from_json(j.get("src"))?,
             caller: decides_from_json(j.get("caller"))?,
         })
@@ -472,6 +477,11 @@ impl Scenario for C15 {
         if self.late_cancel {
             out.push(C15 { late_cancel: false, ..self.clone() });
         }
+        if self.src_repeat > 0 {
+            out.push(C15 { src_repeat: 0, ..self.clone() });
+            out.push(C15 { src_repeat: self.src_repeat / 2, ..self.clone() });
+            out.push(C15 { src_repeat: self.src_repeat - 1, ..self.clone() });
+        }
         if self.family != Ty::Str && self.family != Ty::U64 {
             // simpler payload type, same shapes of frames
             for t in [Ty::U64, Ty::Str] {
@@ -525,7 +535,7 @@ fn stream_len(values: &[ValSpec]) -> usize {
 }
 
 fn base(family: Ty, values: Vec<ValSpec>) -> C15 {
-    C15 { family, values, cut: None, init_buf: 0, max_len_mode: 0, use_ctx: false, rewrap_at: None, knob_mid: None, touch: false, scribble: false, late_cancel: false, src: vec![], caller: vec![] }
+    C15 { family, values, cut: None, init_buf: 0, max_len_mode: 0, use_ctx: false, rewrap_at: None, knob_mid: None, touch: false, scribble: false, late_cancel: false, src_repeat: 0, src: vec![], caller: vec![] }
 }
 
 fn generate_single(r: &mut Rng, tier: Tier) -> C15 {
@@ -605,6 +615,7 @@ fn generate_single(r: &mut Rng, tier: Tier) -> C15 {
         touch: r.chance(1, 3),
         scribble: r.chance(1, 3),
         late_cancel: r.chance(1, 3),
+        src_repeat: gen_repeat(r, shape.history || shape.marathon),
         src,
         caller,
     }
